@@ -374,11 +374,12 @@ func c01NegotiateFeatures(c *cx, nf *eng.Fn, call *ast.CallExpr) (firstParam str
 	}
 	c.r.Floor("C01.7", "state writes in "+nf.Short, nw, 1)
 
-	// ---- C01.9 the Ready bit never comes from a feature ---------------------------
-	// whether the session is established is decided from what was advertised
-	// (the licences below); a feature's own mask carrying Ready would end the
-	// negotiation with mandatory features left and, together with a new stream
-	// layer, without the restart
+	// ---- C01.9 no Ready together with a restart ------------------------------------
+	// a feature may report the end of the negotiation through its mask (resource
+	// binding does), but not together with a new stream layer: the features of
+	// the restarted stream, possibly mandatory ones, have not been read and the
+	// restart itself would be skipped. On every path from Negotiate to a use of
+	// its mask that does not establish rw == nil the Ready bit is cleared first.
 	if as, ok := g.Parent(call).(*ast.AssignStmt); ok && len(as.Lhs) == 3 {
 		if mid, ok := as.Lhs[0].(*ast.Ident); ok {
 			mv := nf.Info().ObjectOf(mid)
@@ -416,6 +417,13 @@ func c01NegotiateFeatures(c *cx, nf *eng.Fn, call *ast.CallExpr) (firstParam str
 				})
 				return found
 			}
+			// paths that establish "no new stream layer" are exempt
+			nilCut := eng.Cut{}
+			for _, pat := range []string{"eq(" + callNorm + "#1,nil)", "eq(local:*<io.ReadWriter>,nil)", "eq(r1,nil)"} {
+				for _, ce := range g.EdgesMatching(pat) {
+					nilCut[ce.E] = true
+				}
+			}
 			nUse := 0
 			for _, w := range nf.FieldWrites("xmpp.Session.state") {
 				if w.RHS == nil || !mentions(w.RHS) {
@@ -426,7 +434,7 @@ func c01NegotiateFeatures(c *cx, nf *eng.Fn, call *ast.CallExpr) (firstParam str
 					continue
 				}
 				nUse++
-				c.r.Check("C01.9", nf, "feature mask applied to the state without Ready", "O: between Negotiate and s.state |= mask the Ready bit is cleared from the feature's mask", w.Stmt.Pos(), g.MustPassBefore(g.After(callPt), wpt, isClear, nil), "a feature that returns Ready in its mask sets the session's Ready bit: negotiation ends although mandatory features (or a restart) are outstanding")
+				c.r.Check("C01.9", nf, "feature mask applied to the state: no Ready with a restart", "O: on every path from Negotiate to s.state |= mask that does not establish rw == nil the Ready bit is cleared from the mask", w.Stmt.Pos(), g.MustPassBefore(g.After(callPt), wpt, isClear, nilCut), "a feature that returns Ready together with a new stream layer sets the session's Ready bit: negotiation ends without the restart and with the restarted stream's features unread")
 			}
 			for _, rs := range g.Returns {
 				rpt, _ := g.Where(rs)
@@ -434,9 +442,27 @@ func c01NegotiateFeatures(c *cx, nf *eng.Fn, call *ast.CallExpr) (firstParam str
 					continue
 				}
 				nUse++
-				c.r.Check("C01.9", nf, "feature mask returned without Ready", "O: between Negotiate and the return of its mask the Ready bit is cleared (Ready is added only by the licences)", rs.Pos(), g.MustPassBefore(g.After(callPt), rpt, isClear, nil), "a feature that returns Ready in its mask makes the negotiator report the session established")
+				c.r.Check("C01.9", nf, "feature mask returned: no Ready with a restart", "O: on every path from Negotiate to the return of its mask that does not establish rw == nil the Ready bit is cleared", rs.Pos(), g.MustPassBefore(g.After(callPt), rpt, isClear, nilCut), "a feature that returns Ready together with a new stream layer makes the negotiator report the session established")
 			}
 			c.r.Floor("C01.9", "uses of the feature's mask", nUse, 2)
+			// the converse: without a restart the feature's Ready bit is kept.
+			// Resource binding ends the negotiation through its mask; clearing
+			// the bit unconditionally leaves every session waiting for a
+			// features list that never comes.
+			keepCut := g.CutFor("eq(" + callNorm + "#1,nil)", "eq(r1,nil)")
+			stripped := ""
+			for _, b := range g.Blocks {
+				if !b.Live {
+					continue
+				}
+				for i, n := range b.Nodes {
+					q := eng.Point{B: int(b.Index), I: i}
+					if isClear(q, n) && g.Reachable(g.After(callPt), q, keepCut, nil) {
+						stripped = "the statement at " + c.p.Pos(n.Pos()) + " clears Ready also when no new stream layer was returned: a session never becomes ready after resource binding"
+					}
+				}
+			}
+			c.r.Check("C01.9", nf, "Ready of a feature that does not restart the stream is kept", "O: assuming rw == nil no statement that clears Ready from the feature's mask is reachable from Negotiate", call.Pos(), stripped == "", stripped)
 		}
 	}
 
